@@ -682,3 +682,29 @@ fn c07_rtp_packet_parse_bytes_16_literal_b0() {
     if let Ok(q) = &r { assert!(q.payload.len() + q.padding_len as usize == 4); }
     core::mem::forget(r);
 }
+
+// ---------------------------------------------------------------- BYE / SDES parse (literal framing, literal ASCII text)
+/// parse_goodbye(build_goodbye_body(b)) == b for one source and a short ASCII reason
+#[kani::proof]
+#[kani::unwind(12)]
+fn c15_bye_roundtrip_literal_reason() {
+    let ssrc: u32 = kani::any();
+    let b = Goodbye { sources: vec![ssrc], reason: Some("bye".to_string()) };
+    let body = build_goodbye_body(&b);
+    assert!(body.len() == 8 && body[0..4] == ssrc.to_be_bytes() && body[4] == 3 && body[5..8] == *b"bye");
+    let p = parse_goodbye(1, &body).unwrap();
+    assert!(p.sources.len() == 1 && p.sources[0] == ssrc && p.reason.as_deref() == Some("bye"));
+    core::mem::forget(p); core::mem::forget(b);
+}
+/// parse_sdes(build_sdes_body(s)) == s for one chunk with one CNAME item (literal ASCII text)
+#[kani::proof]
+#[kani::unwind(12)]
+fn c15_sdes_roundtrip_literal_cname() {
+    let ssrc: u32 = kani::any();
+    let s = SourceDescription { chunks: vec![SdesChunk { ssrc, items: vec![SdesItem { ty: 1, text: "ab".to_string() }] }] };
+    let body = build_sdes_body(&s);
+    let p = parse_sdes(1, &body).unwrap();
+    assert!(p.chunks.len() == 1 && p.chunks[0].ssrc == ssrc && p.chunks[0].items.len() == 1);
+    assert!(p.chunks[0].items[0].ty == 1 && p.chunks[0].items[0].text == "ab");
+    core::mem::forget(p); core::mem::forget(s);
+}
